@@ -17,6 +17,8 @@ for data in range(4):
 quick.append(job("c12.binary", secs=120, n=5, data=0, alpha=0, intercept=1))
 quick.append(job("c12.binary", secs=120, n=5, data=1, alpha=2, intercept=1))
 quick.append(job("c12.multinomial", secs=120, n=5, data=1, alpha=2, intercept=1, iters=5000))
+quick.append(job("c12.tweedie", secs=300, n=6))
+quick.append(job("c12.tweedie", secs=300, n=7))
 thorough = quick + thorough
 
 REG = {"C12": {"quick": quick, "thorough": thorough}}
